@@ -175,7 +175,9 @@ def generate(rng, hostile=False, regimes=("lf", "crlf", "cr", "mixed"), max_file
                     k = len(out_lines[i]) // 2
                     out_lines[i] = out_lines[i][:k] + rng.choice(["\n", "\r"]) + out_lines[i][k:]
                     text = sep.join(out_lines) + (sep if text.endswith(sep) else "")
-            if hostile and rng.random() < 0.2:
+            # a byte order mark in front of the first line (files saved by Windows editors): a character of that line like any other - for a ^ pattern it is
+            # in the way, so such a line stays without one
+            if rng.random() < (0.2 if hostile else 0.1) and not any(p is not None and raws[p].startswith("^") for _t, p in lines[0]):
                 text = "﻿" + text
                 occ = [(ln, s + (1 if ln == 1 else 0), e + (1 if ln == 1 else 0), p) for ln, s, e, p in occ]
             return text, occ
@@ -210,6 +212,17 @@ def generate(rng, hostile=False, regimes=("lf", "crlf", "cr", "mixed"), max_file
                 lay.occ[sibling] = [o for o in lay.occ[sibling] if o[3] <= k]
         else:
             lay.entries.append((key, list(raws)))
+    if rng.random() < 0.15:
+        # a general pattern listed BEFORE a pattern whose text encloses it: where the enclosing match contains the general one it is suppressed (line 1), where the
+        # general pattern's left-most match lies elsewhere on the line both are occurrences (line 2)
+        gen_raw = rng.choice(["{version}", "{pep440_version}"])
+        T = render_old(lay.vp, gen_raw, vinfo)
+        if T and "(" not in T:
+            name = "notes/enclosed.txt"
+            lay.files[name] = "released (%s) - stable\n%s and again (%s)\nend\n" % (T, T, T)
+            lay.fpats[name] = [gen_raw, "(" + gen_raw + ")"]
+            lay.occ[name] = [(1, 10, 10 + len(T), 1), (2, 0, len(T), 1), (2, len(T) + 11, 2 * len(T) + 13, 2)]
+            lay.entries.append((name, list(lay.fpats[name])))
     if not legacy and rng.random() < cfgformats:
         lay.cfg_format = rng.choice(["setup.cfg", "pyproject.toml", "setup.cfg", "pyproject.toml", "pycalver.toml", ".bumpver.toml"])      # pycalver.toml with a [pycalver] section: written by the tool's predecessor
         lay.cfg_variant = rng.randrange(3)
